@@ -8,6 +8,7 @@ from vp.kani_run import Harness
 from units.common import valuelib as VL
 
 RT = "crates/simulator/src/random_table.rs"
+TB = "crates/simulator/src/testbench.rs"
 
 # E1: the `use` lines of random_table.rs are replaced by this fixed prelude (Value is veryl_analyzer::value::Value, re-exported
 # by crate::ir; rand / resource_table are the stand-ins of harness.rs::env)
@@ -36,6 +37,8 @@ HARNESSES = [
     ("get_range_within_bounds", "proof", "get_range", None),
     ("get_fits_width", "proof", "get", None),
     ("derive_seed_is_fnv1a", "bounded", "derive_seed", "name.len()<=2 octets"),
+    ("range_bound_keeps_value", "proof", "range_bound", None),
+    ("get_range_from_argument_values", "proof", "range_bound + get_range", None),
     ("canary_get_range", "canary", "get_range", None),
 ]
 
@@ -43,6 +46,8 @@ TRUSTED = {
     r"kani::assume\(lo <= r && r <= hi\)": "O9: rand's documented contract for Rng::random_range(lo..=hi): the result r satisfies lo <= r <= hi "
                                            "(and it panics on an empty range: `lo <= hi` is asserted, not assumed). Pcg64/seed_from_u64 determinism is rand's.",
     r"kani::assume\(w <= 64\)": "harness precondition: handle width <= 64 (doc comment of random_table::get; the analyzer rejects $tb::random element types wider than 64 bits - analyzer test tb_random_element_type)",
+    r"kani::assume\(v\.width|kani::assume\(w >= 1 && w <= 64\)|kani::assume\(representable": "harness preconditions of the call-site glue: argument values are well-formed sized <=64-bit "
+        "values without x/z (representation invariant, preserved by the operations proved in units value64/opeval), handle width 1..=64, and the requested bounds are representable in the handle's type",
     r"kani::assume\(len <= 2\)": "bound of the derive_seed stand-in: handle names of at most 2 octets",
 }
 TRUSTED.update(VL.STUB_TRUST)
@@ -66,7 +71,7 @@ def scan_seed(it):
 
 
 def build(ctx, res):
-    vtext, vitems = VL.value_module(ctx)
+    vtext, vitems = VL.value_module(ctx, extra_value_fns=["payload_u64"])
     src = ctx.src(RT)
     items = {n: src.item("fn", n) for n in ["mask", "sign_extend", "get_range", "get", "derive_seed"]}
     items["get"].replace(O9_OLD, O9_NEW, count=1, rule="O9")
@@ -74,6 +79,8 @@ def build(ctx, res):
     for n in ("get", "get_range"):
         if "rng" in items[n].render() or "with_rng" in items[n].render():
             raise ExtractError("%s still mentions the generator after rule O9" % n)
+    # the call-site glue that turns an evaluated bound expression into the handle-width pattern (testbench.rs)
+    items["range_bound"] = ctx.src(TB).item("fn", "range_bound")
     params, locs = scan_seed(items["derive_seed"])
     raw = ctx.unit_file("range", "harness.rs")
     h = VL.expand_harness_attrs(raw, unwind=2)
@@ -90,6 +97,9 @@ def build(ctx, res):
         "get_range": "requires w <= 64. For every min, max: u64, signed, and EVERY value rand may return: the range passed to rand is non-empty (lo <= hi asserted); "
                      "result is Value::U64 with width w, the handle's signedness, no x/z, payload & !mask(w) == 0, and its value read at (w, signed) lies between "
                      "the two requested bounds read at (w, signed), in whichever order they were given (the code swaps)",
+        "range_bound": "for every well-formed <=64-bit argument value v (no x/z) and handle width w <= 64: if v's integer value (signed or unsigned by v's own flag) is "
+                       "representable at (w, handle signedness), then range_bound(v, w) read at (w, signed) IS that value; composed with get_range: the draw lies between "
+                       "the integer values of the two argument expressions",
         "get": "requires w <= 64: result is Value::U64, width w, signedness as requested, no x/z, payload fits w bits; range passed to rand non-empty",
         "derive_seed": "== FNV-1a-64 over (8 octets of base, least significant first) ++ (octets of the handle name; empty if the id is unknown), name <= 2 octets; "
                        "equal for equal (base, name) whatever the id; body mentions only parameters %s, locals %s and %s" % (params, locs, sorted(SEED_ALLOW)),
